@@ -90,10 +90,30 @@ class _Tagged:
         return ["@%s %s" % (self.name, x) for x in self._get("impl")]
 
 
+def run_with_tie(full, fn, enabled=True):
+    """fn() performs the real run. Returns (result of fn, model request lines, tagged implementation lines).
+    If the rendering adapter fails inside a wrapped step (the code's data no longer has the shape the model's input
+    format expects - a change of representation in the code under test), the correspondence cannot be established:
+    the run is repeated without the tie and ONE line pair is emitted that can never agree, so that leg C is broken
+    and the check goes on to search for a failing input with its oracle (never a crash, never a silent pass)."""
+    try:
+        with tie_for(full, enabled) as tie:
+            r = fn()
+        if isinstance(r, dict) and r.get("timeout"):
+            return r, [], []
+        return r, tie.lines, tie.impl
+    except AdapterError as e:
+        r = fn()
+        msg = str(e).split("\n")[0][:300].replace("|", "/")
+        return r, ["tie_adapter_failed %s" % full.get("strategy")], ["@adapter " + msg]
+
+
 def compare(impl, model):
     """(handled, difference) for a tagged implementation line"""
     if not impl.startswith("@"):
         return False, None
     name, _, rest = impl[1:].partition(" ")
+    if name == "adapter":
+        return True, "the step tie could not render the world for the model: " + rest
     mod = importlib.import_module(name)
     return True, mod.compare(None, rest, model)
